@@ -22,6 +22,12 @@ func deepLibrary() []*G {
 		gc(":-", gc("last", gv(0), gv(1)), ga("fail")),
 		gc(":-", gc("last", n, m), conjOf([]*G{gc("down", n), gc("member", m, glist([]*G{ga("p"), ga("q")}, nil)), ga("!")})),
 		gc(":-", gc("pick", gv(0), gv(1)), gc(",", gc("member", gv(0), glist([]*G{ga("a"), ga("b"), ga("c")}, nil)), gc("first", gv(1)))),
+		// a variable handed down N levels, every level through a fresh variable unified afterwards (a chain of
+		// N variable-to-variable bindings), bound differently by the alternatives at the bottom
+		gc(":-", gc("chain", gi(0), gv(0)), gc("member", gv(0), glist([]*G{ga("a"), ga("b"), ga("c")}, nil))),
+		gc(":-", gc("chain", n, gv(2)), conjOf([]*G{gc(">", n, gi(0)), gc("is", m, gc("-", n, gi(1))), gc("chain", m, gv(3)), gc("=", gv(2), gv(3))})),
+		gc(":-", gc("chainb", gi(0), gv(0)), gc("member", gv(0), glist([]*G{ga("a"), ga("b"), ga("c")}, nil))),
+		gc(":-", gc("chainb", n, gv(2)), conjOf([]*G{gc(">", n, gi(0)), gc("is", m, gc("-", n, gi(1))), gc("=", gv(2), gv(3)), gc("chainb", m, gv(3))})),
 	}
 }
 
@@ -43,6 +49,13 @@ func deepPrograms(kind int, tier string) []*progCase {
 				gc(",", gc("down", gi(d)), old),
 				gc(",", old, gc("call", gc("down", gi(d)))),
 				gc(",", old, gc(";", gc("down", gi(d)), gc("=", y, ga("alt")))),
+			}
+			if d == depths[0] {
+				for _, l := range []int64{5, 17, 40} {
+					qs = append(qs, gc("chain", gi(l), y), gc("chainb", gi(l), y),
+						gc(",", gc("chainb", gi(l), y), gc("==", y, ga("b"))),
+						gc("findall", y, gc("chain", gi(l), y), gv(0)))
+				}
 			}
 		case 1:
 			qs = []*G{
@@ -284,6 +297,50 @@ func exitedThenCutPrograms() []*progCase {
 					out = append(out, &progCase{prog: prog, note: "exited-then-cut"})
 				}
 			}
+		}
+	}
+	return out
+}
+
+// ---- library predicates against their textbook definitions (C01, C16) ---------------------------
+// The implementation runs member/2, select/3, append/3 (bootstrap.pl or native); M and S run
+// the same call on the two-clause textbook definitions mem/2, sel/3, app/3 given as program
+// text.  Lists are proper, partial and unbound, so that the answer sequences are infinite and
+// only their first 12 members are compared -- the modes the relation model of C16 leaves out.
+
+func libraryAgainstTextbook() []*progCase {
+	text := []*G{
+		gc("mem", gv(0), gc(".", gv(0), gv(-1))),
+		gc(":-", gc("mem", gv(0), gc(".", gv(-1), gv(1))), gc("mem", gv(0), gv(1))),
+		gc("sel", gv(0), gc(".", gv(0), gv(1)), gv(1)),
+		gc(":-", gc("sel", gv(0), gc(".", gv(1), gv(2)), gc(".", gv(1), gv(3))), gc("sel", gv(0), gv(2), gv(3))),
+		gc("app", ga("[]"), gv(0), gv(0)),
+		gc(":-", gc("app", gc(".", gv(0), gv(1)), gv(2), gc(".", gv(0), gv(3))), gc("app", gv(1), gv(2), gv(3))),
+	}
+	a, b, c := ga("a"), ga("b"), ga("c")
+	x, y, z, t := gv(0), gv(1), gv(2), gv(3)
+	calls := [][]*G{
+		{ga("member"), x, glist([]*G{a}, t)}, {ga("member"), b, glist([]*G{a}, t)}, {ga("member"), a, y}, {ga("member"), x, y},
+		{ga("member"), x, glist([]*G{a, b, c}, nil)}, {ga("member"), b, glist([]*G{a, b, c}, t)}, {ga("member"), x, glist([]*G{a, y}, t)},
+		{ga("member"), gc("f", x), glist([]*G{gc("f", a), gc("g", b)}, t)},
+		{ga("select"), x, glist([]*G{a}, t), z}, {ga("select"), a, y, glist([]*G{b}, nil)}, {ga("select"), x, glist([]*G{a, b, c}, nil), z},
+		{ga("select"), b, glist([]*G{a}, t), z}, {ga("select"), x, y, glist([]*G{a, b}, nil)}, {ga("select"), x, y, z},
+		{ga("append"), x, y, glist([]*G{a, b}, nil)}, {ga("append"), glist([]*G{a}, t), y, z}, {ga("append"), x, glist([]*G{b}, nil), glist([]*G{a}, t)},
+		{ga("append"), x, y, z}, {ga("append"), glist([]*G{a, b}, nil), y, z}, {ga("append"), x, glist([]*G{c}, nil), z},
+	}
+	spec := map[string]string{"member": "mem", "select": "sel", "append": "app"}
+	var out []*progCase
+	for _, cl := range calls {
+		name := cl[0].S
+		for ctx := 0; ctx < 2; ctx++ {
+			goal, sgoal := gc(name, cl[1:]...), gc(spec[name], cl[1:]...)
+			if ctx == 1 { // after an older choice point, and followed by a test
+				pre := gc("member", gv(4), glist([]*G{gi(1), gi(2)}, nil))
+				spre := gc("mem", gv(4), glist([]*G{gi(1), gi(2)}, nil))
+				goal, sgoal = gc(",", pre, goal), gc(",", spre, sgoal)
+			}
+			prog := &program{clauses: text, query: goal, nq: 5}
+			out = append(out, &progCase{prog: prog, spec: sgoal, note: "library-vs-textbook"})
 		}
 	}
 	return out
